@@ -72,6 +72,10 @@ pub trait Machine {
     fn next_timer(&self) -> Option<Instant> {
         None
     }
+    /// the runs whose messages this connection carries (stall verdicts look at the whole run, see kit::runs_moved_within)
+    fn runs(&self) -> Vec<u64> {
+        Vec::new()
+    }
 }
 
 #[derive(Debug, PartialEq, Clone, Copy)]
@@ -222,7 +226,15 @@ pub fn run_conn(io: &mut dyn Io, m: &mut dyn Machine, mon: Arc<IdleMon>) -> Outc
         match watch.fruitless() {
             Verdict::Wait => {}
             Verdict::Stall => {
-                m.stall("no byte moved for 12 s, worker asleep");
+                // quiet here, but a body of the same run still moves on another connection: slowness, keep waiting
+                if runs_moved_within(&m.runs(), STALL_AFTER) {
+                    if watch.last.elapsed() > HARD_CAP * 4 {
+                        m.inconclusive();
+                        return Outcome::Inconclusive;
+                    }
+                    continue;
+                }
+                m.stall("no byte moved for 12 s on any connection of the run, worker asleep");
                 return Outcome::Stalled;
             }
             Verdict::Inconclusive => {
@@ -562,6 +574,9 @@ impl Machine for H1Backend {
         self.release();
         self.dead = true;
     }
+    fn runs(&self) -> Vec<u64> {
+        self.cur_run.into_iter().collect()
+    }
     fn wants_close(&mut self) -> CloseAction {
         let c = self.closing;
         if c == CloseAction::ShutdownWr {
@@ -781,6 +796,9 @@ impl Machine for H1Client {
     fn inconclusive(&mut self) {
         self.sh.mark_inconclusive(self.plan.run);
         self.dead = true;
+    }
+    fn runs(&self) -> Vec<u64> {
+        vec![self.plan.run]
     }
     fn wants_close(&mut self) -> CloseAction {
         std::mem::replace(&mut self.closing, CloseAction::None)
